@@ -54,8 +54,11 @@ pub trait Interface: ErrorHandler {
     /// Parses and executes the commands in the input buffer.
     ///
     /// The result is written to the response buffer. Any remaining input that
-    /// was not parsed is returned. If an error occurs, the remaining input
-    /// is returned and the error is passed to the error handler.
+    /// was not parsed because it is incomplete is returned. If a program
+    /// message contains a syntax error, the error is passed to the error
+    /// handler, the rest of that message (up to and including its
+    /// terminator) is discarded and execution continues with the next
+    /// message.
     async fn run<'a>(&mut self, mut input: &'a [u8], response: &mut impl crate::Write) -> &'a [u8] {
         let mut header = self.root_node();
 
@@ -74,7 +77,16 @@ pub trait Interface: ErrorHandler {
                 #[cfg(feature = "defmt")]
                 defmt::trace!("Parse error");
                 self.handle_error(error.into());
-                return input;
+                // Discard the rest of the faulty program message and continue with the
+                // next one.
+                match input.iter().position(|b| *b == b'\n') {
+                    Some(position) => {
+                        input = &input[position + 1..];
+                        header = self.root_node();
+                        continue;
+                    }
+                    None => return input,
+                }
             }
 
             let (i, call) = result.unwrap();
